@@ -418,6 +418,13 @@ Fixpoint args_props (i : Z) (args : list val) : list (str * val) :=
   | a :: args' => (digits_fuel 8 i [], a) :: args_props (i + 1) args'
   end.
 
+(* object literal fields, left to right; [ev] evaluates one field expression *)
+Fixpoint eval_fields (ev : state -> expr -> R) (fs : list (str * expr)) (s0 : state) (acc : list (str * val)) : R :=
+  match fs with
+  | [] => let '(s1, l) := new_obj s0 (mkobj acc (Some 1%nat) KObj) in okv s1 (WRef l)
+  | (k, e1) :: fs' => bindv (ev s0 e1) (fun s1 v => eval_fields ev fs' s1 (alist_set k v acc))
+  end.
+
 Section Step.
 Variable self : task -> state -> R.
 
@@ -541,12 +548,7 @@ Definition step (t : task) (s : state) : R :=
             else if isbig v then okv s WBig else Decline
         end
     | XComma a b => bindv (self (TExpr c a) s) (fun s1 _ => self (TExpr c b) s1)
-    | XObj fields =>
-        (fix go (fs : list (str * expr)) (s0 : state) (acc : list (str * val)) : R :=
-           match fs with
-           | [] => let '(s1, l) := new_obj s0 (mkobj acc (Some 1%nat) KObj) in okv s1 (WRef l)
-           | (k, e1) :: fs' => bindv (self (TExpr c e1) s0) (fun s1 v => go fs' s1 (alist_set k v acc))
-           end) fields s []
+    | XObj fields => eval_fields (fun s0 e1 => self (TExpr c e1) s0) fields s []
     | XFun ps b => let '(s1, fl) := make_function s ps b (c_env c) in okv s1 (WRef fl)
     | XCall f args =>
         bindv (self (TExpr c f) s) (fun s1 vf =>
